@@ -1927,7 +1927,7 @@ class StridedInterval:
                 # It's testing the sign bit
                 stride = 1 << (a.bits - 1)
                 if b.is_integer:
-                    if b.lower_bound == stride:
+                    if b.lower_bound & stride:
                         return StridedInterval(bits=b.bits, stride=0, lower_bound=stride, upper_bound=stride)
                     return StridedInterval(bits=b.bits, stride=0, lower_bound=0, upper_bound=0)
                 is_sol = (
